@@ -272,16 +272,21 @@ static const Pm1RefTree pm1_ref_tree[32] = {
 	/* 30 (a b)                        */ { 2, "(a b)", { {0x0, 1, 0}, {0x1, 1, 1} } },
 	/* 31 no tree: class a, no bits    */ { 1, "a", { {0x0, 0, 0} } },
 };
-static unsigned pm1_ref_rank(unsigned header, unsigned *cur)
+/* rank class (0..5 = a..f) selected by the next bits under start header `header` */
+static unsigned pm1_ref_class(unsigned header, unsigned *cur)
 {
-	unsigned i, cls = 0, v;
+	unsigned i;
 	for (i = 0; i < 6; ++i) {
 		if (i >= pm1_ref_tree[header].nleaves) break;
 		if (PMA_BITS(*cur, pm1_ref_tree[header].leaf[i].len) != pm1_ref_tree[header].leaf[i].code) continue;
-		cls = pm1_ref_tree[header].leaf[i].cls;
 		*cur += pm1_ref_tree[header].leaf[i].len;
-		break;
+		return pm1_ref_tree[header].leaf[i].cls;
 	}
+	return 0;   /* unreachable: every tree is a complete prefix code (validator) */
+}
+static unsigned pm1_ref_rank(unsigned header, unsigned *cur)
+{
+	unsigned cls = pm1_ref_class(header, cur), v;
 	v = PMA_BITS(*cur, pm1_ref_rank_class[cls].bits);
 	*cur += pm1_ref_rank_class[cls].bits;
 	return pm1_ref_rank_class[cls].base + v;
